@@ -375,6 +375,7 @@ func main() {
 			}
 		}
 	}
+	registerPrecancel(h, strats)
 	for _, trait := range []string{"onoff", "light"} {
 		for _, op := range []string{"get", "update"} {
 			for _, c := range groupCases() {
@@ -388,10 +389,7 @@ func main() {
 			for _, members := range [][]string{{"v0", "v1"}, {"vv0", "vv1"}, {"fail0", "v1"}, {"v0", "fail1"}, {"vv0", "v1", "v21"}} {
 				for failAt := 0; failAt <= 2; failAt++ {
 					name := fmt.Sprintf("%s.Group/pull/%s[%s]/subscriber-fails-at=%d", trait, stratNames[st], strings.Join(members, ","), failAt)
-					q, t := -1, -1
-					if len(members) > 2 {
-						q = 2
-					}
+					q, t := -1, -1 // (the unbounded search with sleep sets is the cheaper one here)
 					h.Sched(name, q, t, groupPullBody(name, trait, st, members, failAt), hx.StdOracle)
 				}
 			}
